@@ -134,7 +134,7 @@ def run(ctx):
         P["evidence"] = [(tuple(cfgprop._tup(a)), v) for a, v in P["evidence"]]
         progs = [P]
     else:
-        progs = [spine.gen_program(rng, negloops=rng.choice([0.0, 0.3, 0.6, 0.9]), max_level=rng.choice([1, 2, 2])) for _ in range(n)]
+        progs = [spine.gen_program(rng, negloops=rng.choice([0.0, 0.3, 0.6, 0.9]), max_level=rng.choice([1, 2, 2]), numeric=True) for _ in range(n)]
         progs += [gen_prop_loops(rng) for _ in range(ctx.budget(400, 6000))]
     # pinned regression corpus: must-reject programs inside the region of known finding C02-missed-negative-cycle that the
     # tree rejected when the corpus was built (tools/gen_c02_corpus.py); an answer here is a regression, never "known"
